@@ -118,6 +118,18 @@ def gen_history(streams, tier, profile):
             ops.append({"op": "edit", "edit": e})
             if hrng.random() < p_restart:
                 ops.append({"op": "restart"})
+            if e["kind"] == "addload" and hrng.random() < 0.6:
+                # ask directly for the function that now reads a path: as a data function call / driver-level keep
+                g = cur["funcs"].get(e["f"], {})
+                follow = None
+                if g.get("kind") == "data":
+                    follow = {"op": "eval", "entry": e["f"], "style": "call"}
+                elif g.get("kind") == "target" and e["f"] in gen.keep_entries(cur):
+                    follow = {"op": "eval", "entry": e["f"], "style": "keep"}
+                if follow is not None:
+                    if ops[-1]["op"] != "restart":
+                        ops.append({"op": "restart"})
+                    ops.append(follow)
         elif k == "revert" and nedits:
             ops.append({"op": "revert", "to": hrng.randrange(0, nedits)})
             nedits += 1
@@ -142,6 +154,8 @@ def gen_history(streams, tier, profile):
     # always end with an evaluation after the last change
     ops.append({"op": "eval", "entry": hrng.choice(gen.entries(cur)), "style": hrng.choice(styles)})
     loads_after()
+    if two and feat.get("loads") and hrng.random() < 0.6:
+        _coherence_pattern(cur, ops, hrng, gen)
     loc = cfg.choice(profile.get("locations", ["package"]))
     case = {"prog": prog, "feat": feat, "store": store, "ops": ops, "options": [], "location": loc}
     if loc == "notebook":
@@ -171,6 +185,39 @@ def final_prog(case):
             versions.append(versions[min(op["to"], len(versions) - 1)])
             cur = len(versions) - 1
     return versions[cur]
+
+
+def _coherence_pattern(cur, ops, hrng, gen):
+    """Two live processes and a path that one of them only reads: the long-running process evaluates a reader of a
+    path, the main process re-produces the path from edited code, the long-running process reads again."""
+    from .cone import Cones
+
+    prods = Cones(cur).producers()
+    ents = gen.entries(cur)
+    reach = {e: gen.reachable(cur, e) for e in ents}
+    cands = []
+    for r in ents:
+        for fn in sorted(reach[r]):
+            for it in cur["funcs"][fn]["body"]:
+                if it["t"] != "load" or it["path"] not in prods:
+                    continue
+                prod = prods[it["path"]]
+                if prod[1] in reach[r]:
+                    continue
+                target = prod[1] if prod[0] == "data" else cur["funcs"][prod[1]]["body"][prod[2]]["f"]
+                for e in ents:
+                    if e != r and prod[1] in reach[e] and target not in reach[r]:
+                        cands.append((r, e, target, it["path"]))
+    if not cands:
+        return
+    r, e, target, path = hrng.choice(cands)
+    ops += [{"op": "eval", "entry": e, "style": "eval"},
+            {"op": "eval", "entry": r, "style": "eval", "proc": 1},
+            {"op": "edit", "edit": {"kind": "ver", "f": target}},
+            {"op": "restart"},
+            {"op": "eval", "entry": e, "style": "eval"},
+            {"op": "eval", "entry": r, "style": "eval", "proc": 1},
+            {"op": "load", "path": path, "fresh": False, "file": False, "proc": 1}]
 
 
 def shrink_history(case):
